@@ -2,6 +2,7 @@
 -- lemmas and the regenerated facts under EvyV/Gen).
 import EvyV.Props.C01
 import EvyV.Props.C02
+import EvyV.Props.C03
 import EvyV.Props.C04
 import EvyV.Props.C08
 import EvyV.Props.C09
